@@ -1,6 +1,7 @@
 //! parsedump: for every input text prints the rowan tree and the syntax errors of syntax::parse.
 //! node = ["N", kind, lo, hi, [children]], token = ["T", kind, lo, hi];
 //! output object: {"tree": node, "errors": [[lo, hi, msg], ...], "text_ok": tree.text()==input}
+//! `--timeout-ms N` (default 20000): per-case watchdog, see main.
 //! with `--flat`: {"leaves": [[kind, lo, hi], ...], "nodes": n, "errors": ..., "text_ok": ..}
 use serde_json::{json, Value};
 use syntax::{SyntaxElement, SyntaxNode};
@@ -22,15 +23,25 @@ fn node(n: &SyntaxNode) -> Value {
 
 fn main() {
     vharness::quiet_panics();
-    let flat = std::env::args().any(|a| a == "--flat");
+    let args: Vec<String> = std::env::args().collect();
+    let flat = args.iter().any(|a| a == "--flat");
+    // per-case watchdog: a parse that does not return within the limit is reported as {"timeout": ms} and the
+    // process stops there (the runaway thread cannot be cancelled); the caller resumes with the remaining cases.
+    let timeout_ms: u64 = args
+        .iter()
+        .position(|a| a == "--timeout-ms")
+        .and_then(|i| args.get(i + 1))
+        .and_then(|v| v.parse().ok())
+        .unwrap_or(20_000);
     let cases = vharness::read_cases();
     let mut out = Vec::new();
     for text in cases {
         let t2 = text.clone();
+        let (tx, rx) = std::sync::mpsc::channel();
         let h = std::thread::Builder::new()
             .stack_size(8 * 1024 * 1024)
             .spawn(move || {
-                vharness::guarded(move || {
+                let r = vharness::guarded(move || {
                     let p = syntax::parse(&t2);
                     let root = p.syntax_node();
                     let errors: Vec<Value> = p
@@ -55,13 +66,31 @@ fn main() {
                     } else {
                         json!({"tree": node(&root), "errors": errors, "text_ok": text_ok})
                     }
-                })
+                });
+                let _ = tx.send(r);
             })
             .unwrap();
-        match h.join() {
-            Ok(Ok(v)) => out.push(v),
-            Ok(Err(m)) => out.push(json!({"panic": m})),
-            Err(_) => out.push(json!({"panic": "thread"})),
+        match rx.recv_timeout(std::time::Duration::from_millis(timeout_ms)) {
+            Ok(Ok(v)) => {
+                let _ = h.join();
+                out.push(v)
+            }
+            Ok(Err(m)) => {
+                let _ = h.join();
+                out.push(json!({"panic": m}))
+            }
+            Err(std::sync::mpsc::RecvTimeoutError::Timeout) => {
+                out.push(json!({"timeout": timeout_ms}));
+                println!("{}", Value::Array(out));
+                use std::io::Write;
+                let _ = std::io::stdout().flush();
+                std::process::exit(0);
+            }
+            Err(_) => {
+                // the thread died without sending (stack overflow aborts the whole process before this point)
+                let _ = h.join();
+                out.push(json!({"panic": "thread"}))
+            }
         }
     }
     println!("{}", Value::Array(out));
